@@ -72,12 +72,40 @@ def write_config(incdir, with_gmp=True):
                 "#define CMR_DEPRECATED\n#endif\n")
 
 
-def build_lib(cfg="rel", extra_defs=(), tag=None):
-    """Compile the library from /repo's *current working tree*. Returns the build directory."""
+def apply_edits(text, edits):
+    """edits: list of (old_line, new_line) that must each occur exactly once (a recorded repair, see known_patches/)"""
+    for old, new in edits:
+        if text.count(old) != 1:
+            raise BuildError("recorded repair does not apply: %r occurs %d times" % (old.strip()[:60], text.count(old)))
+        text = text.replace(old, new)
+    return text
+
+
+def read_edits(path):
+    """parse a known_patches/*.diff file: '--- a/<file>' names the file, each '-line' / '+line' pair is one edit"""
+    fn, edits, old = None, [], None
+    for l in open(path):
+        l = l.rstrip("\n")
+        if l.startswith("--- a/"):
+            fn = l[6:]
+        elif l.startswith("+++") or l.startswith("@@"):
+            continue
+        elif l.startswith("-"):
+            old = l[1:] + "\n"
+        elif l.startswith("+") and old is not None:
+            edits.append((old, l[1:] + "\n"))
+            old = None
+    return fn, edits
+
+
+def build_lib(cfg="rel", extra_defs=(), tag=None, repair=None):
+    """Compile the library from /repo's *current working tree*. Returns the build directory.
+    repair: path of a recorded repair (known_patches/*.diff) that is applied to a private copy of the one source file it
+    names; used only to attribute violations to a known finding (they must disappear with the repair)."""
     name = "lib-" + cfg + ("-" + tag if tag else "")
     out = os.path.join(WORK, name)
     flags = CFGS[cfg] + [GUARD] + list(extra_defs)
-    fp = tree_fingerprint(" ".join(flags) + " buildrules-v3")
+    fp = tree_fingerprint(" ".join(flags) + " buildrules-v3" + (open(repair).read() if repair else ""))
     stamp = os.path.join(out, "stamp")
     if os.path.exists(stamp) and open(stamp).read() == fp and os.path.exists(os.path.join(out, "libcmr.a")):
         return out
@@ -89,8 +117,14 @@ def build_lib(cfg="rel", extra_defs=(), tag=None):
     inc = ["-I" + os.path.join(REPO, "include"), "-I" + os.path.join(out, "inc"),
            "-I" + os.path.join(REPO, "src/cmr")]
 
+    if repair:
+        fn, edits = read_edits(repair)
+        patched = os.path.join(out, "patched-" + os.path.basename(fn))
+        open(patched, "w").write(apply_edits(open(os.path.join(REPO, fn)).read(), edits))
+        srcs = [patched if os.path.abspath(s_) == os.path.abspath(os.path.join(REPO, fn)) else s_ for s_ in srcs]
+
     def cc(src):
-        obj = os.path.join(out, os.path.basename(src)[:-2] + ".o")
+        obj = os.path.join(out, os.path.basename(src)[:-2].replace("patched-", "") + ".o")
         fl = flags
         if cfg == "dbg" and os.path.basename(src) == "env.c":
             # the stack allocator's own bookkeeping bytes are poisoned by the harness (exact bounds for scratch
@@ -105,7 +139,7 @@ def build_lib(cfg="rel", extra_defs=(), tag=None):
     bad = [r for r in res if r[1] != 0]
     if bad:
         raise BuildError("library does not compile: %s\n%s" % (bad[0][0], bad[0][2][:2000]))
-    objs = [os.path.join(out, os.path.basename(s)[:-2] + ".o") for s in srcs]
+    objs = [os.path.join(out, os.path.basename(s)[:-2].replace("patched-", "") + ".o") for s in srcs]
     sh(["ar", "rcs", os.path.join(out, "libcmr.a")] + objs, check=True)
     open(stamp, "w").write(fp)
     return out
@@ -115,8 +149,8 @@ class BuildError(Exception):
     pass
 
 
-def build_drive(cfg="rel", extra_defs=(), tag=None, wrap_clock=False):
-    lib = build_lib(cfg, extra_defs, tag)
+def build_drive(cfg="rel", extra_defs=(), tag=None, wrap_clock=False, repair=None):
+    lib = build_lib(cfg, extra_defs, tag, repair)
     exe = os.path.join(lib, "drive" + ("-clk" if wrap_clock else ""))
     src = os.path.join(VERIF, "harness", "drive.c")
     deps = [src, os.path.join(lib, "libcmr.a")]
